@@ -24,6 +24,7 @@ import (
 	"strconv"
 	"strings"
 	"sync"
+	"sync/atomic"
 	"testing"
 	"testing/synctest"
 	"time"
@@ -88,7 +89,7 @@ type vfWorld struct {
 
 	probeTransport *http.Transport
 
-	savedTransport http.RoundTripper
+	tearing        atomic.Bool
 	savedLogger    *slog.Logger
 	savedTmp       string
 	closed         bool
@@ -106,7 +107,7 @@ func newVFWorld(t *testing.T) *vfWorld {
 	w.savedTmp = os.Getenv("TMPDIR")
 	os.Setenv("TMPDIR", dir+"/tmp")
 
-	w.savedTransport = http.DefaultTransport
+	vfInstallGlobals()
 	w.probeTransport = &http.Transport{
 		DialContext: func(ctx context.Context, network, addr string) (net.Conn, error) {
 			c, err := w.net.DialFrom(ctx, vfProbeClientIP, addr)
@@ -117,15 +118,8 @@ func newVFWorld(t *testing.T) *vfWorld {
 		},
 		DisableKeepAlives: true,
 	}
-	http.DefaultTransport = w.probeTransport
-	verifDial = func(ctx context.Context, network, addr string) (net.Conn, error) {
-		c, err := w.net.DialFrom(ctx, vfProxyClientIP, addr)
-		if err != nil {
-			return nil, err
-		}
-		return c, nil
-	}
-	verifPointFn = nil
+	vfCurSched.Store(nil)
+	vfCurWorld.Store(w)
 	w.savedLogger = slog.Default()
 	slog.SetDefault(slog.New(&vfLogHandler{w: w}))
 	return w
@@ -198,11 +192,48 @@ func (w *vfWorld) release(name string) {
 	}
 }
 
-type vfGoexitTransport struct{}
+// Process-wide indirection: the package-level hooks (http.DefaultTransport for probes, verifDial for
+// target connections, verifPointFn for program points) are set once per process and dispatch to the
+// world / scheduler of the case in progress through atomics, so that no goroutine of the code under
+// test ever races with the harness swapping a global.
+var (
+	vfCurWorld    atomic.Pointer[vfWorld]
+	vfCurSched    atomic.Pointer[vfSched]
+	vfGlobalsOnce sync.Once
+)
 
-func (vfGoexitTransport) RoundTrip(*http.Request) (*http.Response, error) {
-	runtime.Goexit()
-	return nil, nil
+type vfProbeRoundTripper struct{}
+
+// RoundTrip carries probes over the current world's network; during teardown (or without a world) the
+// calling probe loop ends itself: that is how leaked health-check loops are reaped.
+func (vfProbeRoundTripper) RoundTrip(req *http.Request) (*http.Response, error) {
+	w := vfCurWorld.Load()
+	if w == nil || w.tearing.Load() {
+		runtime.Goexit()
+	}
+	return w.probeTransport.RoundTrip(req)
+}
+
+func vfInstallGlobals() {
+	vfGlobalsOnce.Do(func() {
+		http.DefaultTransport = vfProbeRoundTripper{}
+		verifDial = func(ctx context.Context, network, addr string) (net.Conn, error) {
+			w := vfCurWorld.Load()
+			if w == nil {
+				return nil, errVFRefused
+			}
+			c, err := w.net.DialFrom(ctx, vfProxyClientIP, addr)
+			if err != nil {
+				return nil, err
+			}
+			return c, nil
+		}
+		verifPointFn = func(name string, args ...any) {
+			if s := vfCurSched.Load(); s != nil {
+				s.point(name, args...)
+			}
+		}
+	})
 }
 
 func (w *vfWorld) logsCopy() []vfLogRec {
@@ -219,7 +250,7 @@ func (w *vfWorld) close() {
 	if w.sched != nil {
 		w.sched.stop() // nobody stays parked at a hook
 	}
-	verifPointFn = nil
+	vfCurSched.Store(nil)
 	w.onLog = nil
 	close(w.closeCh)
 	w.mu.Lock()
@@ -255,7 +286,7 @@ func (w *vfWorld) close() {
 	}
 	// Whatever probe loop is still alive (a leak, or a load balancer that was never
 	// installed) ends itself on its next attempt.
-	http.DefaultTransport = vfGoexitTransport{}
+	w.tearing.Store(true)
 	for _, tg := range targets {
 		tg.srv.Close()
 	}
@@ -271,9 +302,8 @@ func (w *vfWorld) close() {
 	synctest.Wait()
 	w.wg.Wait()
 
-	http.DefaultTransport = w.savedTransport
 	slog.SetDefault(w.savedLogger)
-	verifDial = nil
+	vfCurWorld.Store(nil)
 	os.Setenv("TMPDIR", w.savedTmp)
 	os.RemoveAll(w.dir)
 }
@@ -294,6 +324,9 @@ func vfBubble(t *testing.T, fn func(w *vfWorld)) {
 		}()
 		fn(w)
 	})
+	if os.Getenv("VF_DEBUG") != "" {
+		fmt.Fprintf(os.Stderr, "VF-DEBUG bubble returned caught=%v failed=%v\n", caught != nil, t.Failed())
+	}
 	if caught != nil {
 		panic(fmt.Sprintf("%v\n%s", caught, stack))
 	}
